@@ -28,9 +28,10 @@ import (
 const prelude = `
 var E=[], P=[], RS=[], H=[], T=[], A=[], TF=[], TG=[], C=[];
 function B(id){var q=Promise.resolve(undefined);Object.defineProperty(q,"then",{get:TG[id],configurable:true});return q;}
+function setP(d,r){if(r instanceof Promise&&!Object.prototype.hasOwnProperty.call(r,"then"))P[d]=r;}
 function callRS(s,i,v){try{if(RS[s]&&typeof RS[s][i]==="function")RS[s][i](v);}catch(e){E.push("e:"+repr(e));}}
-function jsThen(k,d,f,g,m){if(!P[k])return;try{var r=(m==="then")?P[k].then(f,g):(m==="catch")?P[k].catch(g):P[k].finally(f);if(r instanceof Promise)P[d]=r;}catch(e){E.push("e:"+repr(e));}}
-function comb(name,c,d,arr){var r=(c===undefined)?Promise[name](arr):Promise[name].call(C[c],arr);if(r instanceof Promise)P[d]=r;}
+function jsThen(k,d,f,g,m){if(!P[k])return;try{var r=(m==="then")?P[k].then(f,g):(m==="catch")?P[k].catch(g):P[k].finally(f);setP(d,r);}catch(e){E.push("e:"+repr(e));}}
+function comb(name,c,d,arr){var r=(c===undefined)?Promise[name](arr):Promise[name].call(C[c],arr);setP(d,r);}
 function repr(v){
   if(v===undefined)return "u";
   if(typeof v==="number")return "n"+v;
@@ -152,7 +153,7 @@ func (p *parser) body(ts []string, async bool) string {
 			if ts[i] == "prej" {
 				m = "reject"
 			}
-			fmt.Fprintf(&b, "P[%d]=Promise.%s(%s);", p.num(ts[i+2]), m, p.v(ts[i+1]))
+			fmt.Fprintf(&b, "setP(%d,Promise.%s(%s));", p.num(ts[i+2]), m, p.v(ts[i+1]))
 			i += 3
 		case "all", "aset", "race", "any", "allC", "asetC", "raceC", "anyC":
 			if !need(3) {
